@@ -75,6 +75,8 @@ type lbEngine struct {
 	progress    bool             // C03/R7: every loop iteration advances the cursor or a counter
 	tiling      bool             // C13/R4: track the Space/Raw/Pos/End stores of tokens and comments
 	tokProg     bool             // C13/R6: every return of the token readers has consumed at least one byte (or is at <eof>)
+	numFollow   bool             // C14/R11: what consumeNumber rejects / accepts right behind a number
+	identPart   bset             // the bytes char.IsIdentPart accepts (C14/R6)
 	bytes       bool             // C03/R9: track what is known about single bytes of the buffer
 	inlineAlso  map[string]bool  // with shallow: cursor-moving methods that are followed all the same
 	foldEq      bool             // C16/R3: char.EqualFold returns true only for equal lengths, after the last index
@@ -698,6 +700,44 @@ func (e *lbEngine) run(in *lbInst, entry *lstate) []lbRet {
 		}
 		if e.trace && e.record && os.Getenv("VERIF_LB_LIVEDEBUG") != "" {
 			fmt.Printf("LB FINAL %s b%d (visits %d): %s\n", fn.Name(), b.Index, visits[b], e.at.showState(st))
+		}
+		if e.numFollow && e.record && fn.Name() == "consumeNumber" {
+			for _, p := range b.Preds {
+				s := edge[[2]int{p.Index, b.Index}]
+				if s == nil {
+					continue
+				}
+				// `glued := a && b; if glued {…}`: the branch is on a boolean phi; what is known on each way into the
+				// phi is looked at separately (the two ways of not being glued have nothing in common)
+				if iff, ok := p.Instrs[len(p.Instrs)-1].(*ssa.If); ok {
+					if phi, ok := iff.Cond.(*ssa.Phi); ok && phi.Block() == p && len(p.Succs) == 2 {
+						pol := p.Succs[0] == b
+						split := false
+						for qi, q := range p.Preds {
+							sq := edge[[2]int{q.Index, p.Index}]
+							if sq == nil || qi >= len(phi.Edges) {
+								continue
+							}
+							v := phi.Edges[qi]
+							if cb, isC := constBool(v); isC {
+								if cb == pol {
+									e.numFollowEdge(in, b, p, sq)
+									split = true
+								}
+								continue
+							}
+							if rs := e.refine(in, sq, v, pol); rs != nil {
+								e.numFollowEdge(in, b, p, rs)
+								split = true
+							}
+						}
+						if split {
+							continue
+						}
+					}
+				}
+				e.numFollowEdge(in, b, p, s)
+			}
 		}
 		outs := e.execBlock(in, b, st, &rets)
 		if e.scanFns[fn.Name()] && e.record {
@@ -1414,6 +1454,20 @@ func (e *lbEngine) execBlock(in *lbInst, b *ssa.BasicBlock, st *lstate, rets *[]
 		e.steps++
 		switch x := instr.(type) {
 		case *ssa.Phi:
+		case *ssa.BinOp:
+			// C14/R10: the window compared with a comment terminator does not overlap the opener
+			if e.scanNeed != nil && e.record && e.scanFns[in.fn.Name()] && x.Op == token.EQL && isStringType(x.X.Type()) {
+				for _, side := range []ssa.Value{x.X, x.Y} {
+					if p, ok := side.(*ssa.Parameter); ok {
+						if term, ok := in.bindStr[p]; ok {
+							need := e.scanNeed[term]
+							g := e.at.get("entryPos", "cursor at entry", false)
+							e.requireAt(st, in.fn, x, "C14/R10", fmt.Sprintf("%s: the search for %q starts behind the comment opener", funcName(in.fn), term),
+								[]string{fmt.Sprintf("cursor - start of the comment >= %d", need)}, []lin{linAtom(e.P).sub(linAtom(g)).add(linConst(-need))})
+						}
+					}
+				}
+			}
 		case *ssa.UnOp:
 			if e.split && x.Op == token.MUL {
 				if g, ok := e.splitTokenAtom(in, x.X); ok {
@@ -1495,6 +1549,8 @@ func (e *lbEngine) execBlock(in *lbInst, b *ssa.BasicBlock, st *lstate, rets *[]
 						st = st.with(lfact{l: l})
 					}
 				}
+			} else if e.numFollow && e.record && in.fn.Name() == "consumeNumber" && isKindBadStore(x) {
+				e.numFollowReject(in, st, x)
 			} else if e.tiling && e.tilingStore(in, &st, x) {
 			} else if e.tokLen && e.tokLenStore(in, &st, x) {
 			} else if fa, ok := x.Addr.(*ssa.FieldAddr); ok && e.split && fieldAddrName(fa) == "Buffer" && e.aliasOf(in, fa.X) == "file" {
@@ -1539,6 +1595,11 @@ func (e *lbEngine) execBlock(in *lbInst, b *ssa.BasicBlock, st *lstate, rets *[]
 		case *ssa.Slice:
 			e.sliceOb(in, st, x)
 		case *ssa.Call:
+			if e.numFollow && e.record && in.fn.Name() == "consumeNumber" {
+				if sc := x.Call.StaticCallee(); sc != nil && strings.HasPrefix(sc.Name(), "panicf") {
+					e.numFollowReject(in, st, x)
+				}
+			}
 			if os.Getenv("VERIF_LB_IFDEBUG") != "" && in.fn.Name() == "skipComment" {
 				fmt.Printf("LB BEFORECALL %s b%d %s record=%v\n", in.fn.Name(), b.Index, x.Name(), e.record)
 			}
@@ -1888,19 +1949,6 @@ func (e *lbEngine) inline(in *lbInst, st *lstate, call *ssa.Call, callee *ssa.Fu
 	}
 	if e.bytes && e.record && callee.Name() == "peekDelimiter" {
 		e.requireAt(st, callee, call, "C03/R9", "peekDelimiter: the byte under the cursor is a quote (the delimiter panic is unreachable)", []string{"context reached"}, []lin{linConst(0)})
-	}
-	// C14/R10: the window compared with a comment terminator does not overlap the opener
-	if e.scanNeed != nil && e.record && callee.Name() == "slice" && e.scanFns[in.fn.Name()] && len(com.Args) == 3 {
-		if k, isC := constInt(com.Args[1]); isC && k == 0 {
-			for p, term := range in.bindStr {
-				if call2, ok := com.Args[2].(*ssa.Call); ok && isLenCall(call2) && call2.Call.Args[0] == ssa.Value(p) {
-					need := e.scanNeed[term]
-					g := e.at.get("entryPos", "cursor at entry", false)
-					e.requireAt(st, in.fn, call, "C14/R10", fmt.Sprintf("%s: the search for %q starts behind the comment opener", funcName(in.fn), term),
-						[]string{fmt.Sprintf("cursor - start of the comment >= %d", need)}, []lin{linAtom(e.P).sub(linAtom(g)).add(linConst(-need))})
-				}
-			}
-		}
 	}
 	if e.trace && e.record && os.Getenv("VERIF_LB_CALLDEBUG") == callee.Name() {
 		fmt.Printf("LB CALL %s from %s: %s\n", callee.Name(), e.context(), e.at.showState(st))
@@ -2800,6 +2848,117 @@ func ruleC13R6(w *World, r *Report) {
 	}
 	if n == 0 {
 		r.errorf("no return of the token readers reached")
+	}
+}
+
+func isKindBadStore(x *ssa.Store) bool {
+	fa, ok := x.Addr.(*ssa.FieldAddr)
+	if !ok || fieldAddrName(fa) != "Kind" {
+		return false
+	}
+	k, ok := constString(x.Val)
+	return ok && k == "<bad>"
+}
+
+// numFollowReject: a number is rejected (raise, or <bad> in recovering mode) only because an identifier character
+// follows it directly.
+func (e *lbEngine) numFollowReject(in *lbInst, st *lstate, at ssa.Instruction) {
+	set, has := st.byteSet(linAtom(e.P))
+	okk := has
+	if has {
+		for c := 0; c < 256; c++ {
+			if set.has(byte(c)) && !e.identPart.has(byte(c)) {
+				okk = false
+			}
+		}
+	}
+	need := linConst(0)
+	if !okk {
+		need = linConst(-1)
+	}
+	e.requireAt(st, in.fn, at, "C14/R11", "consumeNumber: a number is rejected only when an identifier character follows it directly", []string{"the byte behind the number is known to be a letter, a digit or '_'"}, []lin{need})
+}
+
+// numFollowEdge: on every edge into a return of consumeNumber that does not mark the token <bad>, the input is
+// exhausted or the byte behind the number is not an identifier character ("1from" is not a number and a name).
+func (e *lbEngine) numFollowEdge(in *lbInst, b, p *ssa.BasicBlock, s *lstate) {
+	if _, isRet := b.Instrs[len(b.Instrs)-1].(*ssa.Return); !isRet || len(b.Instrs) != 1 {
+		return
+	}
+	// the <bad> arm returns from its own block
+	for _, x := range p.Instrs {
+		if st, ok := x.(*ssa.Store); ok && isKindBadStore(st) {
+			return
+		}
+	}
+	ret := b.Instrs[len(b.Instrs)-1]
+	atEOF := s.proves(e.at, lfact{l: linAtom(e.P).sub(linAtom(e.N))})
+	okk := atEOF
+	if !okk {
+		var notPart bset
+		for c := 0; c < 256; c++ {
+			if !e.identPart.has(byte(c)) {
+				notPart.add(byte(c))
+			}
+		}
+		if set, has := s.byteSet(linAtom(e.P)); has && set.inter(e.identPart).empty() {
+			okk = true
+		}
+		_ = notPart
+	}
+	need := linConst(0)
+	if !okk {
+		need = linConst(-1)
+	}
+	e.requireAt(s, in.fn, ret, "C14/R11", "consumeNumber: a number is accepted only at the end of input or in front of a byte that is not an identifier character", []string{"pos >= len(Buffer), or the byte at the cursor is known not to be a letter, a digit or '_'"}, []lin{need})
+}
+
+// ruleC14R11: numbers may not be glued to an identifier — and only that.
+func ruleC14R11(w *World, r *Report) {
+	const rule = "C14/R11"
+	r.rule(rule, "what stands right behind a number literal: consumeNumber rejects (raises, or marks the token <bad> in recovering mode) only when the byte at the cursor is an identifier character (char.IsIdentPart's set, C14/R6), and returns a number only at the end of input or in front of a byte that is not one — LEXBOUNDS with byte facts on consumeNumber", 2)
+	defer debug.SetGCPercent(debug.SetGCPercent(1000))
+	root := w.fn(w.Mem, "(*Lexer).consumeNumber")
+	isPart := w.fn(w.Char, "IsIdentPart")
+	if root == nil || isPart == nil {
+		r.errorf("(*Lexer).consumeNumber / char.IsIdentPart not found")
+		return
+	}
+	set, ok := w.predicateTrueSet(isPart)
+	if !ok {
+		r.undecided(rule, "char.IsIdentPart", w.pos(isPart.Pos()), "not a pure comparison predicate")
+		return
+	}
+	e := w.newLexBounds()
+	e.bytes, e.numFollow = true, true
+	e.shallow, e.shallowLeaf = true, true
+	for c := 0; c < 256; c++ {
+		if set[c] {
+			e.identPart.add(byte(c))
+		}
+	}
+	e.trace = verboseRule() != "" && verboseRule() != "1" && strings.HasPrefix(rule, verboseRule())
+	e.runRoot(root, map[string]bool{"noPanic": false})
+	e.runRoot(root, map[string]bool{"noPanic": true})
+	n := 0
+	for _, ob := range e.results() {
+		if ob.rule != rule {
+			continue
+		}
+		n++
+		if ob.failed == 0 {
+			r.ok(rule, ob.construct, ob.where, fmt.Sprintf("proved in %d context(s)", ob.total))
+		} else {
+			var ds []string
+			for d := range ob.details {
+				ds = append(ds, d)
+			}
+			sort.Strings(ds)
+			r.bad(rule, ob.construct, ob.where, fmt.Sprintf("%d of %d context(s): %s", ob.failed, ob.total, strings.Join(ds, " | ")))
+		}
+	}
+	if n < 2 {
+		r.errorf("the rejection and the acceptance of consumeNumber were not both reached (%d obligations)", n)
 	}
 }
 
